@@ -4,15 +4,24 @@
 (* SPSDK exported (+ one ParseBack event: what SPSDK's own parser recovered from the same bytes).   *)
 (* A trace is accepted when it is consumed to its end; the executor's "Stop" event (pointer outside *)
 (* the file, unparsable structure) has no action, so such a trace is rejected where it stopped.     *)
-EXTENDS HabRom, TLC, Json, IOUtils
+(*                                                                                                 *)
+(* A HISTORY (HabHist.tla: several images built one after the other in ONE process, from projects     *)
+(* whose configurations use the same relative names for different key files) is one trace too: it      *)
+(* carries  inps  (the inputs of every build, in order) instead of  inp,  and its event list is the     *)
+(* ROM walk over the first image up to Accept, a "NextBuild" event, the walk over the second image ...  *)
+(* The register b counts the images: image b is judged against inps[b] - the certificates, SRK table,    *)
+(* fuse value and DEK of ITS project - by a ROM that starts from S0 again (NextBuild).                   *)
+EXTENDS HabRom, HabHist, TLC, Json, IOUtils
 Traces == ndJsonDeserialize(IOEnv.TRACE_FILE)
-VARIABLES tid, l, s
+VARIABLES tid, l, s, b
 T == Traces[tid].ev
 E == T[l]
-inp == Traces[tid].inp
+IsHist == "inps" \in DOMAIN Traces[tid]
+NBuilds == IF IsHist THEN Len(Traces[tid].inps) ELSE 1
+inp == IF IsHist THEN Traces[tid].inps[b] ELSE Traces[tid].inp
 Is(e) == l <= Len(T) /\ E.ev = e
-Adv == l' = l + 1 /\ UNCHANGED tid
-TInit == tid \in 1..Len(Traces) /\ l = 1 /\ s = S0 /\ TLCSet(tid, 1)
+Adv == l' = l + 1 /\ UNCHANGED <<tid, b>>
+TInit == tid \in 1..Len(Traces) /\ l = 1 /\ s = S0 /\ b = 1 /\ TLCSet(tid, 1)
 
 ParseIvt         == Is("ParseIvt")     /\ IvtOK(inp, s, E)       /\ s' = IvtNx(inp, s, E)       /\ Adv
 BootData         == Is("BootData")     /\ BdOK(inp, s, E)        /\ s' = BdNx(inp, s, E)        /\ Adv
@@ -29,9 +38,13 @@ InstallSecretKey == Is("InstallKey")   /\ SecretOK(inp, s, E)    /\ s' = SecretN
 DecryptData      == Is("Authenticate") /\ DecryptOK(inp, s, E)   /\ s' = DecryptNx(inp, s, E)   /\ Adv
 OtherCmd         == Is("Cmd")          /\ OtherOK(inp, s, E)     /\ s' = OtherNx(inp, s, E)     /\ Adv
 CsfEnd           == Is("CsfEnd")       /\ EndOK(inp, s, E)       /\ s' = EndNx(inp, s, E)       /\ Adv
+\* (a history is consumed only when every build it has inputs for was judged: its last event is the Accept of image NBuilds)
 Accept           == Is("Accept")       /\ AcceptOK(inp, s)       /\ s' = AcceptNx(inp, s)       /\ Adv
+                                       /\ (IsHist /\ l = Len(T) => b = NBuilds)
 ParseBack        == Is("ParseBack")    /\ l = Len(T) /\ ParseBackOK(inp, s, E) /\ s' = ParseBackNx(inp, s, E) /\ Adv
-TNext == ParseIvt \/ BootData \/ Dcd \/ Xmcd \/ App \/ CsfHeader \/ InstallSrk \/ InstallCsfk \/ AuthenticateCsf \/ InstallImgk
+\* the next image of a history: accepted image behind, fresh ROM, the inputs of the next build
+NextBuild        == Is("NextBuild")    /\ IsHist /\ HNextBuildOK(s.st, E, b, NBuilds) /\ s' = S0 /\ b' = b + 1 /\ l' = l + 1 /\ UNCHANGED tid
+TNext == NextBuild \/ ParseIvt \/ BootData \/ Dcd \/ Xmcd \/ App \/ CsfHeader \/ InstallSrk \/ InstallCsfk \/ AuthenticateCsf \/ InstallImgk
          \/ AuthenticateData \/ InstallSecretKey \/ DecryptData \/ OtherCmd \/ CsfEnd \/ Accept \/ ParseBack
 Constr == IF TLCGet(tid) < l THEN TLCSet(tid, l) ELSE TRUE
 Post == \A i \in 1..Len(Traces) :
